@@ -164,4 +164,43 @@ def readAllLoop (c : Cfg) : Nat → Bytes → Nat → List Bytes
 def readAll (c : Cfg) (file : Bytes) : List Bytes :=
   readAllLoop c (file.length + 1) file 0
 
+/-! ### `was_read_cleanly_to_end` (decides whether recovery may append to the log) -/
+
+inductive RResS where
+  /-- end of file; `clean` = nothing left over, no unfinished record pending, nothing skipped -/
+  | eof (clean : Bool)
+  | record (data : Bytes) (rest : Bytes) (boff : Nat) (skipped : Bool)
+  deriving Repr, DecidableEq
+
+/-- `read_record` with the bookkeeping of `has_skipped_data`; at end of file the cursor equals
+the file length exactly when no bytes remain after the last complete fragment or trailer -/
+def readRecordLoopS (c : Cfg) : Nat → Bytes → Nat → Bytes → Bool → Bool → RResS
+  | 0, _, _, _, _, _ => .eof false
+  | fuel+1, rest, boff, acc, frag, skipped =>
+    match readPhysical c rest boff with
+    | .eof => .eof (rest.isEmpty && !frag && !skipped)
+    | .bad rest' boff' => readRecordLoopS c fuel rest' boff' [] false true
+    | .ok ty data rest' boff' =>
+      if ty = TFull then .record data rest' boff' (skipped || frag)
+      else if ty = TFirst then readRecordLoopS c fuel rest' boff' data true (skipped || frag)
+      else if ty = TMiddle then
+        (if frag then readRecordLoopS c fuel rest' boff' (acc ++ data) true skipped
+         else readRecordLoopS c fuel rest' boff' [] false true)
+      else
+        (if frag then .record (acc ++ data) rest' boff' skipped
+         else readRecordLoopS c fuel rest' boff' [] false true)
+
+def readAllLoopS (c : Cfg) : Nat → Bytes → Nat → Bool → List Bytes × Bool
+  | 0, _, _, _ => ([], false)
+  | fuel+1, rest, boff, skipped =>
+    match readRecordLoopS c (rest.length + 1) rest boff [] false skipped with
+    | .eof clean => ([], clean)
+    | .record d rest' boff' sk =>
+      let r := readAllLoopS c fuel rest' boff' sk
+      (d :: r.1, r.2)
+
+/-- all records and the value of `was_read_cleanly_to_end` afterwards -/
+def readAllS (c : Cfg) (file : Bytes) : List Bytes × Bool :=
+  readAllLoopS c (file.length + 1) file 0 false
+
 end Rain.Log
